@@ -602,7 +602,7 @@ def rule_r8(chk, db):
         c = o.get("Continue") | o.get("Ok")
         ok = bool(c) and flow.must_pass(b, oks, c)
     chk.verdict(ok, "R8", "nothing-after-root", b.loc(ee[0][0]) if ee else b.loc(), "a document is accepted without expect_eof having succeeded: trailing elements after the root are ignored")
-    e = db.body(DE + "Deserializer::<'xml>::expect_eof")
+    e = inline.inlined(db, db.body(DE + "Deserializer::<'xml>::expect_eof"))
     if e is not None:
         okr = True
         for w in flow.return_writes(e):
